@@ -72,8 +72,8 @@ def err(id, code=2001, message='e', data=None):
 def gen_relate(tier, rng):
     thorough = tier == 'thorough'
     # single calls x every id relation x strict on/off
-    for req_id in (1, 0, 'a', '1', -5):
-        for resp_id in (req_id, None, 2, '1', 1, 'a', '', 0, 1.0, True):
+    for req_id in (1, 0, 'a', '1', -5, 'Abc'):
+        for resp_id in (req_id, None, 2, '1', 1, 'a', '', 0, 1.0, True, 'A', 'abc', 'ABC'):
             for strict in (True, False):
                 for body in ('result', 'error', 'both', 'neither'):
                     doc = {'jsonrpc': '2.0', 'id': resp_id}
@@ -133,6 +133,10 @@ def gen_relate(tier, rng):
             docs.append({'jsonrpc': '2.0', 'id': 5, 'error': {'code': 1, 'message': 'm'}})
             docs.append({'jsonrpc': '2.0', 'id': None, 'result': 1})
             docs.append([1])
+            # literal null elements are not responses
+            docs.append(base[:1] + [None] + base[1:])
+            docs.append([None])
+            docs.append(base + [None, None])
             docs.append(base[:-1] + [{'jsonrpc': '2.0', 'id': ids[-1]}])
             for doc in docs:
                 for strict in (True, False):
@@ -201,6 +205,8 @@ def backoffs(n, rng):
     yield {'k': 'fibonacci', 'attempts': str(n), 'multiplier': F(1.0), 'max': F(1.0), 'jitter': j0}
     yield {'k': 'fibonacci', 'attempts': str(n), 'multiplier': F(0.5), 'max': None, 'jitter': j1}
     yield {'k': 'fibonacci', 'attempts': str(n), 'multiplier': F(0.3), 'max': F(100.0), 'jitter': j1}
+    yield {'k': 'fibonacci', 'attempts': str(n), 'multiplier': F(1.0), 'max': F(2.0), 'jitter': j1}        # the cap applies to delay + jitter
+    yield {'k': 'periodic', 'attempts': str(n), 'interval': F(0.5), 'jitter': j1}
 
 
 def strategy(backoff, codes='one', excs='one'):
@@ -308,6 +314,13 @@ def gen_trace(tier, rng):
                     st = strategy({'k': 'periodic', 'attempts': str(n), 'interval': F(0.0), 'jitter': []}, 'one', 'one') if n else None
                     atts = [TRACE_OUTCOMES[k]() for k in seq]
                     yield send_case(client_cfg(tracers=ntr, caller_ctx=caller_ctx, retry=st), single(), atts, call=True, tag='trace')
+                    if rng.random() < 0.25:
+                        # the library's own LoggingTracer configured first: it must cope with every request kind and outcome
+                        cfgl = client_cfg(tracers=ntr, caller_ctx=caller_ctx, retry=st)
+                        cfgl['logging_tracer'] = True
+                        yield send_case(cfgl, single(), atts, call=True, tag='trace')
+                        yield send_case(cfgl, batch([_req_spec('a', None, 1), _req_spec('b', None, 2)]),
+                                        [text_reply([ok(1), ok(2)]) if k == 'ok' else TRACE_OUTCOMES[k]() for k in seq], tag='trace')
                     if rng.random() < 0.3:
                         yield send_case(client_cfg(tracers=ntr, caller_ctx=caller_ctx, retry=st), single(id=None),
                                         [{'k': 'none'}] if seq[-1] == 'ok' else [exc_reply('ConnErr'), {'k': 'none'}], tag='trace')
@@ -599,6 +612,12 @@ def _oracle_half(prop, c, o, half):
             fail('resend-changed-document', 'a re-sent request differs from the first one')
         # the caller receives the *last* attempt's outcome: its exception re-raised, never one of an earlier attempt
         a = c['attempts'][min(sends - 1, len(c['attempts']) - 1)]
+        if a['k'] == 'text' and 'rpc' in (final.get('raised') or {}) and a.get('load', {}).get('k') == 'ok':
+            d = dec(a['load']['j'])
+            well = (isinstance(d, dict) and 'error' in d and 'result' not in d and d.get('jsonrpc') == '2.0'
+                    and (d.get('id') is None or req['kind'] == 'single' and enc(d.get('id')) == req['req']['id']))
+            if well:
+                fail('last-response-raised', 'send() raised the error of the last (still failing) response instead of returning that response')
         raised = (final.get('raised') or {}).get('exc')
         if a['k'] == 'exc':
             if raised != IC.EXC[a['name']].__name__:
